@@ -560,13 +560,20 @@ def typeBits (a : Abstract) (opts : List NOpt) (t : Nat) : Bool :=
           && (a.la == some .double && !a.ra && caretOnly a.pattern) && !rp))
   && !N.contains t
 
-/-- **The request-type bits of a parsed rule**, for every rule line the parser accepts. -/
-theorem parse_type_bits (line : Str) (r : Rule) (h : parseNetwork line = .ok r) :
-    ∃ parsed, parseAbstract line = .ok parsed ∧
-      ∀ t ∈ FROM_ALL_TYPES, has r.mask t = typeBits parsed (parsed.options.getD []) t := by
+/-- what every successful parse went through, with the anchor bits of the intermediate masks -/
+theorem parse_pipeline (line : Str) (r : Rule) (h : parseNetwork line = .ok r) :
+    ∃ parsed opts st m0 m1 fStart m2 filter host,
+      parseAbstract line = .ok parsed ∧ parsed.options.getD [] = opts ∧ (∀ o ∈ opts, optOK o) ∧
+      st = opts.foldl applyOption (st0 parsed.exception) ∧
+      (∀ b, b ≠ IS_COMPLETE_REGEX → has m0 b = has (maskBeforePattern parsed st) b) ∧
+      has m0 IS_LEFT_ANCHOR = (parsed.la == some .single) ∧ has m0 IS_RIGHT_ANCHOR = parsed.ra ∧
+      has m0 IS_HOSTNAME_ANCHOR = (parsed.la == some .double) ∧
+      m1 = (splitHostPart parsed.la m0 parsed.pattern).1 ∧ fStart = (splitHostPart parsed.la m0 parsed.pattern).2.2 ∧
+      m2 = (filterSurgery m1 parsed.pattern fStart).1 ∧
+      markComplete (maskBeforePattern parsed st) parsed.pattern = .ok m0 ∧
+      finishNetwork line parsed st m2 filter host = .ok r := by
   obtain ⟨parsed, st, m0, m1, host0, fStart, m2, filter, host, hpa, hst, hm0, hs, hf, _, hfin⟩ :=
     parse_stages line r h
-  refine ⟨parsed, hpa, ?_⟩
   have hok0 := parseAbstract_options line parsed hpa
   have hok : ∀ o ∈ parsed.options.getD [], optOK o := by
     intro o ho
@@ -621,6 +628,16 @@ theorem parse_type_bits (line : Str) (r : Rule) (h : parseNetwork line = .ok r) 
   have hm1 : m1 = (splitHostPart parsed.la m0 parsed.pattern).1 := by rw [hs]
   have hfs : fStart = (splitHostPart parsed.la m0 parsed.pattern).2.2 := by rw [hs]
   have hm2 : m2 = (filterSurgery m1 parsed.pattern fStart).1 := by rw [hf]
+  exact ⟨parsed, opts, st, m0, m1, fStart, m2, filter, host, hpa, hopts, hok, hstEq, hm0b, h19, h20, h21, hm1, hfs, hm2, hm0, hfin⟩
+
+/-- **The request-type bits of a parsed rule**, for every rule line the parser accepts. -/
+theorem parse_type_bits (line : Str) (r : Rule) (h : parseNetwork line = .ok r) :
+    ∃ parsed, parseAbstract line = .ok parsed ∧
+      ∀ t ∈ FROM_ALL_TYPES, has r.mask t = typeBits parsed (parsed.options.getD []) t := by
+  obtain ⟨parsed, opts, st, m0, m1, fStart, m2, filter, host, hpa, hopts, hok, hstEq, hm0b, h19, h20, h21, hm1, hfs,
+    hm2, hm0, hfin⟩ := parse_pipeline line r h
+  refine ⟨parsed, hpa, ?_⟩
+  rw [hopts]
   -- the ws arm
   have hws : wsFires m1 parsed.pattern fStart = (parsed.la == some .single && isWsText parsed.pattern) := by
     rw [hm1, hfs]
